@@ -25,6 +25,11 @@ CHECKS = {
                      "the detected schema equals the oracle's typed value sets and key set, and diff_jobs equals the per-job non-shared pairs and reconstructs each state point.",
                 note="Trusted: CrossHair path enumeration; oracles refs.schema/refs.diffs. Corpus injected at Project._build_index. One open known finding (empty vs non-empty mapping under exclude_const).",
                 ref="DESIGN.md §4 C18"),
+    "C16": dict(tech="SMT-backed symbolic execution (CrossHair+z3) of the export path-map / leaf-node / zip-attribution kernels, direct z3 regex-inclusion queries on the live schema regexes, and real-file-system round trips with symbolic configuration",
+                text="Bounded proof: leaf/node check raises iff one of <=3 paths (<=3 segments over {a,b,ab}) is a component-wise ancestor of another, for every order; _export_jobs either raises before the first copy or yields an injective, prefix-free path map "
+                     "for 2-3 jobs over a textually colliding value domain and 7 path specifications; zip import attributes every member to the job whose root contains it component-wise and writes nothing outside job directories.",
+                note="Trusted: CrossHair path enumeration; stub ZipFile / recording copytree. Outside: compression codecs, >3 jobs in kernels.",
+                ref="DESIGN.md §4 C16"),
 }
 NOT_YET = {}
 
